@@ -970,7 +970,11 @@ REQUIRED_THEOREMS = ["decision_eq_spec", "at_most_one_reply", "reply_echoes_toke
                      "pending_of_others_irrelevant", "deferred_retransmission_acked", "history_changes_only_by_ack_again",
                      "reply_shape_any_history", "async_fires_exactly_the_due", "async_fired_were_registered",
                      "async_wait_le_earliest_deadline", "async_one_entry_per_session_token",
-                     "async_retransmission_no_second_entry", "async_retransmission_acked_only"]
+                     "async_retransmission_no_second_entry", "async_retransmission_acked_only",
+                     "async_refs_balanced", "async_no_entry_of_freed_session", "async_pending_session_not_reclaimed",
+                     "async_balance_inductive", "async_second_pass_same_handler",
+                     "async_second_pass_handler_of_current_table", "async_deleted_resource_handler_never_runs",
+                     "async_registered_entry_second_pass", "async_wait_of_untriggered_entry_witness"]
 RULE = ("one line = one fresh server context + one request datagram: resource tables (0-4 ordinary resources from a pool of paths incl. "
         "'', '.well-known/core', percent-escaped and empty segments; per-method handler masks; observable; all multicast flag "
         "combinations; OSCORE-only; unknown-resource handler with/without HANDLE_WELLKNOWN_CORE; proxy resource with host name), "
